@@ -29,7 +29,8 @@ type envVal struct {
 	b      bool
 	isStr  bool
 	s      string
-	isLen  bool // a variadic parameter bound to i arguments
+	isLen  bool         // a variadic parameter bound to i arguments
+	sym    types.Object // a package-level symbol passed by name (e.g. _F_i64toa, _AX)
 }
 
 type asmSeq struct {
@@ -44,6 +45,7 @@ type asmCtx struct {
 	em       emitModel
 	maxPaths int
 	cache    map[string][]asmSeq
+	noInline map[string]bool // helpers kept as markers (summarised by the rule)
 }
 
 func newAsmCtx(p *core.Program, rel, recvType string) *asmCtx {
@@ -75,6 +77,9 @@ func (a *asmCtx) evalIn(e ast.Expr, env asmEnv) (envVal, bool) {
 				return v, true
 			}
 			if vv, ok := o.(*types.Var); ok && !vv.IsField() && vv.Parent() == vv.Pkg().Scope() {
+				if _, isStruct := vv.Type().Underlying().(*types.Struct); isStruct {
+					return envVal{sym: vv}, true // obj.Addr operands and function addresses
+				}
 				// package-level variables such as int16Type are initialised non-nil values
 				if _, isPtrLike := vv.Type().Underlying().(*types.Interface); isPtrLike {
 					return envVal{nonNil: true}, true
@@ -154,8 +159,20 @@ func (a *asmCtx) evalIn(e ast.Expr, env asmEnv) (envVal, bool) {
 
 // resolveOps patches operands whose displacement/immediate depend on bound parameters.
 func (a *asmCtx) resolveOp(op EmitOp, env asmEnv) EmitOp {
+	if op.Kind == "Helper" && op.Call != nil {
+		for _, arg := range op.Call.Args {
+			v, ok := a.evalIn(arg, env)
+			op.ArgVals = append(op.ArgVals, v)
+			op.ArgOK = append(op.ArgOK, ok)
+		}
+	}
 	if len(env) == 0 {
 		return op
+	}
+	if strings.HasPrefix(op.Mnem, "?") && op.Call != nil && len(op.Call.Args) > 0 {
+		if v, ok := a.evalIn(op.Call.Args[0], env); ok && v.isStr {
+			op.Mnem = v.s
+		}
 	}
 	ops := append([]Operand(nil), op.Ops...)
 	for i := range ops {
@@ -171,7 +188,15 @@ func (a *asmCtx) resolveOp(op EmitOp, env asmEnv) EmitOp {
 			}
 		}
 		if o.Kind == "other" && o.Expr != nil {
-			// a parameter holding a register/operand: resolve through the env? (not modelled)
+			// a parameter holding a register/operand passed by name
+			if v, ok := a.evalIn(o.Expr, env); ok && v.sym != nil {
+				if init := a.p.VarInit(v.sym); init != nil {
+					r := a.em.operand(init, 0)
+					r.Name = v.sym.Name()
+					r.Expr = o.Expr
+					*o = r
+				}
+			}
 		}
 	}
 	op.Ops = ops
@@ -316,9 +341,9 @@ func (a *asmCtx) seqs(fd *ast.FuncDecl, env asmEnv, depth int) ([]asmSeq, bool) 
 				}
 				// inline helper
 				cfd := a.p.DeclOf(op.Callee)
-				if cfd == nil || cfd.Body == nil || depth >= 4 || core.RecvName(cfd) != a.recvType || a.p.ObjectOf(cfd.Name) == nil || a.p.ObjectOf(cfd.Name).Pkg() != a.pk.Types {
+				if cfd == nil || cfd.Body == nil || depth >= 4 || a.noInline[op.Callee.Name()] || core.RecvName(cfd) != a.recvType || a.p.ObjectOf(cfd.Name) == nil || a.p.ObjectOf(cfd.Name).Pkg() != a.pk.Types {
 					for i := range cur {
-						cur[i].Ops = append(cur[i].Ops, op)
+						cur[i].Ops = append(cur[i].Ops, op, EmitOp{Kind: "HelperEnd", Callee: op.Callee, Pos: op.Pos})
 					}
 					continue
 				}
